@@ -329,6 +329,20 @@ fn seq_pair(rng: &mut Rng) -> (Vec<u8>, Vec<u8>, usize) {
                 y.extend(rng.seq(&alpha, post));
                 y
             }
+            3 => {
+                // several mutated copies of a short prefix of x: one sequence much longer than the other
+                let l = rng.below(x.len().min(14) + 1);
+                let mut y = vec![];
+                for _ in 0..2 + rng.below(3) {
+                    y.extend(rng.mutate(&x[..l], &alpha, 10));
+                }
+                let xs = x[..l].to_vec();
+                let (a, b) = if rng.chance(1, 2) { (xs, y) } else { (y, xs) };
+                if naive_kmer_matches(&a, &b, k).len() <= 160 {
+                    return (a, b, k);
+                }
+                continue;
+            }
             _ => {
                 let rate = *rng.pick(&[3usize, 8, 15, 30]);
                 rng.mutate(&x, &alpha, rate)
@@ -355,7 +369,13 @@ fn show_pairs(v: &[(u32, u32)]) -> String {
 }
 
 fn match_list(rng: &mut Rng, k: usize) -> Vec<(u32, u32)> {
+    // the two coordinate ranges differ in half of the lists (a short sequence against a long one)
     let g = 3 + rng.below(40);
+    let (gx, gy) = match rng.below(4) {
+        0 => (g, 3 + rng.below(8)),
+        1 => (3 + rng.below(8), g),
+        _ => (g, g),
+    };
     let n = match rng.below(4) {
         0 => rng.below(4),
         1 | 2 => rng.below(13),
@@ -366,7 +386,7 @@ fn match_list(rng: &mut Rng, k: usize) -> Vec<(u32, u32)> {
         match rng.below(4) {
             // a diagonal run
             0 => {
-                let (x, y) = (rng.below(g) as u32, rng.below(g) as u32);
+                let (x, y) = (rng.below(gx) as u32, rng.below(gy) as u32);
                 let l = 1 + rng.below(2 * k + 3);
                 for t in 0..l as u32 {
                     v.push((x + t, y + t));
@@ -379,7 +399,7 @@ fn match_list(rng: &mut Rng, k: usize) -> Vec<(u32, u32)> {
                 let dy = (k as i64 + rng.range(-1, 2)).max(0) as u32;
                 v.push((x + dx, y + dy));
             }
-            _ => v.push((rng.below(g) as u32, rng.below(g) as u32)),
+            _ => v.push((rng.below(gx) as u32, rng.below(gy) as u32)),
         }
     }
     v.sort_unstable();
@@ -444,16 +464,16 @@ pub fn gen(tier: &str, rng: &mut Rng, out: &mut Vec<String>) {
     for _ in 0..600 * scale {
         gen_codes(rng, out);
     }
-    for _ in 0..500 * scale {
+    for _ in 0..600 * scale {
         gen_kmer(rng, out);
     }
-    for _ in 0..600 * scale {
+    for _ in 0..1500 * scale {
         gen_lcs(rng, out);
     }
-    for _ in 0..300 * scale {
+    for _ in 0..400 * scale {
         gen_sdp(rng, out);
     }
-    for _ in 0..300 * scale {
+    for _ in 0..400 * scale {
         gen_expand(rng, out);
     }
     if tier == "thorough" {
